@@ -211,6 +211,17 @@ func AcceptBidToBuy1SatOrdinal(ctx context.Context, vba *ValidateBidArgs, aba *A
 
 	tx.Inputs[1].PreviousTxScript = vba.OrdinalUTXO.LockingScript
 	tx.Inputs[1].PreviousTxSatoshis = vba.OrdinalUTXO.Satoshis
+
+	// The fee checks above saw the ordinal input without its unlocking script, which
+	// has to be paid for as well, so check the fee with that script estimated.
+	enough, err = tx.EstimateIsFeePaidEnough(vba.ExpectedFQ)
+	if err != nil {
+		return nil, err
+	}
+	if !enough {
+		return nil, bt.ErrInsufficientFees
+	}
+
 	err = tx.FillInput(ctx, aba.OrdinalUnlocker, bt.UnlockerParams{InputIdx: 1})
 	if err != nil {
 		return nil, err
